@@ -9,6 +9,7 @@ import (
 	"time"
 
 	dht "github.com/libp2p/go-libp2p-kad-dht"
+	pb "github.com/libp2p/go-libp2p-kad-dht/pb"
 	"github.com/libp2p/go-libp2p/core/peer"
 	"github.com/libp2p/go-libp2p/core/routing"
 	record "github.com/libp2p/go-libp2p-record"
@@ -18,9 +19,14 @@ import (
 
 // runLookup executes one scenario under one schedule and returns its trace.
 func runLookup(t *testing.T, sc *Scenario, ch sim.Chooser) (evs []sim.Ev) {
-	runBubble(t, func(t *testing.T) {
+	dl := runBubble(t, func(t *testing.T) {
 		evs = runLookupInBubble(t, sc, ch)
 	})
+	if dl != "" {
+		// insert before the End line
+		end := evs[len(evs)-1]
+		evs = append(evs[:len(evs)-1], sim.Ev{"e": "Stuck", "msg": dl, "ts": end["ts"]}, end)
+	}
 	return evs
 }
 
@@ -54,6 +60,10 @@ func runLookupInBubble(t *testing.T, sc *Scenario, ch sim.Chooser) []sim.Ev {
 		if err := d.ProviderStore().AddProvider(bg, []byte(e.key), peer.AddrInfo{ID: e.u.P(rk), Addrs: addrsOf(rk)}); err != nil {
 			t.Fatalf("seed local provider: %v", err)
 		}
+	}
+
+	if sc.Warm > 0 {
+		e.warmUp(t, sc.Warm, sc.WarmBig)
 	}
 
 	rt := e.rtRanks()
@@ -198,12 +208,19 @@ func runLookupInBubble(t *testing.T, sc *Scenario, ch sim.Chooser) []sim.Ev {
 	}
 	regCancel()
 	<-levDone
-	if hang {
-		// let a hung operation's goroutines go away if they can; otherwise the
-		// bubble reports the deadlock itself
-		<-opDone
+	if closed := func() bool {
+		select {
+		case <-closeDone:
+			return true
+		default:
+			return false
+		}
+	}(); !closed {
+		// Close is blocked for good; the bubble exit will report the deadlock
+		tr.Flush()
+		tr.Add("End", "ts", e.now())
+		return tr.Events
 	}
-	<-closeDone
 	_ = e.host.Close()
 	synctest.Wait()
 	tr.Flush()
@@ -218,6 +235,93 @@ func runLookupInBubble(t *testing.T, sc *Scenario, ch sim.Chooser) []sim.Ev {
 	}
 	tr.Add("End", "ts", e.now())
 	return tr.Events
+}
+
+// warmUp completes n closest-peers lookups without logging, so that the
+// network size estimator has data. With big=false every peer answers with
+// every peer (the estimator sees a small network). With big=true the lookups
+// find K fabricated peers that are extremely close to the warm-up keys, so the
+// estimator believes in a huge network and the optimistic thresholds become
+// tiny. The fabricated peers are removed from the routing table afterwards
+// and connectedness is reset to the script.
+func (e *lookupEnv) warmUp(t *testing.T, n int, big bool) {
+	e.quiet = true
+	all := make([]int, 0, e.sc.N)
+	for i := 1; i <= e.sc.N; i++ {
+		all = append(all, i)
+	}
+	var fabricated []peer.ID
+	for i := 0; i < n; i++ {
+		key := fmt.Sprintf("/v/warm-%d", i)
+		var near []*pb.Message_Peer
+		if big {
+			for _, p := range nearPeers(key, e.sc.K) {
+				near = append(near, &pb.Message_Peer{Id: []byte(p), Addrs: [][]byte{addrOf(0).Bytes()}})
+				fabricated = append(fabricated, p)
+			}
+		}
+		done := make(chan struct{})
+		go func() {
+			defer close(done)
+			_, _ = e.d.GetClosestPeers(context.Background(), key)
+		}()
+		for {
+			synctest.Wait()
+			items := e.gate.Pending()
+			if len(items) == 0 {
+				break
+			}
+			for _, it := range items {
+				if it.Kind == "dial" {
+					e.gate.Release(it, nil)
+					continue
+				}
+				rpc := it.Payload.(*sim.RPC)
+				closer := e.pbPeers(all, nil)
+				if big {
+					closer = near
+				}
+				e.gate.Release(it, sim.RPCOutcome{Resp: &pb.Message{Type: rpc.Msg.GetType(), Key: rpc.Msg.GetKey(), CloserPeers: closer}})
+			}
+		}
+		<-done
+	}
+	for _, p := range fabricated {
+		e.d.RoutingTable().RemovePeer(p)
+		e.host.Net().SetConnected(p, false)
+	}
+	for i := range e.sc.Scripts {
+		e.host.Net().SetConnected(e.u.P(i+1), e.sc.Scripts[i].Conn)
+	}
+	synctest.Wait()
+	e.quiet = false
+}
+
+var nearCache = map[string][]peer.ID{}
+
+// nearPeers returns k peer ids whose Kademlia ids share at least 16 leading
+// bits with the Kademlia id of key (found by search, cached per process).
+func nearPeers(key string, k int) []peer.ID {
+	ck := fmt.Sprintf("%s/%d", key, k)
+	if v, ok := nearCache[ck]; ok {
+		return v
+	}
+	target := sim.KadID([]byte(key))
+	var out []peer.ID
+	buf := make([]byte, 34)
+	buf[0], buf[1] = 0x12, 0x20 // sha2-256 multihash header
+	for ctr := uint64(0); len(out) < k; ctr++ {
+		for j := 0; j < 8; j++ {
+			buf[2+j] = byte(ctr >> (8 * j))
+		}
+		copy(buf[10:], key)
+		id := sim.KadID(buf)
+		if id[0] == target[0] && id[1] == target[1] {
+			out = append(out, peer.ID(append([]byte(nil), buf...)))
+		}
+	}
+	nearCache[ck] = out
+	return out
 }
 
 func failOutcome(it *sim.Parked) any {
